@@ -1347,7 +1347,64 @@ PINNED_SPECIAL_METHODS = {
     "Continuum": {"__add__", "__bool__", "__eq__", "__getitem__", "__iter__", "__len__", "__ne__"},
     "Notebook": {"__call__", "__getitem__"},
 }
-_HARMLESS_SPECIAL_METHODS = {"__init__", "__repr__", "__str__", "__format__", "__doc__", "__post_init__", "__class_getitem__", "__sizeof__", "__dir__"}
+_HARMLESS_SPECIAL_METHODS = {"__init__", "__repr__", "__str__", "__format__", "__doc__", "__class_getitem__", "__sizeof__", "__dir__"}
+
+
+def _classes_built_in(ctx: Ctx) -> Set[str]:
+    """package classes whose constructor is called in a function this property analysed (their objects are made there: what the class does when
+    an object is made or compared is part of what those functions do)"""
+    M = ctx.model
+    out = set()
+    for q in ctx.functions_analysed:
+        f = M.functions.get(q)
+        if f is None:
+            continue
+        for c in ast.walk(f.node):
+            if isinstance(c, ast.Call):
+                nm = (dotted(c.func) or "").split(".")[-1]
+                if nm in M.classes:
+                    out.add(nm)
+    return out
+
+
+def check_field_accessors(ctx: Ctx, rule: str = "R-FIELD-ACCESSORS"):
+    """closedness guard: the rules read `obj.x = v` as a store of v and `obj.x` as a read of what was stored.  A data descriptor bound at class
+    level, or a property with a setter, under the name of a field decides both.  The pinned tree has two such pairs (table below, covered by the
+    record rules); another one whose name a function of this property reads or writes is accepted when it is the transparent pair (`return
+    self._x` / `self._x = value`) and reported UNDECIDED otherwise (not a verdict)."""
+    M = ctx.model
+    n = 0
+    mentioned: Set[str] = set()
+    for q in ctx.functions_analysed:
+        f = M.functions.get(q)
+        if f is not None:
+            mentioned |= {x.attr for x in ast.walk(f.node) if isinstance(x, ast.Attribute)}
+    for cn, c in sorted(M.classes.items()):
+        if c.module.name.endswith("notebook"):
+            continue
+        for name, st in sorted(c.setters.items()):
+            if name in PINNED_SETTERS.get(cn, set()) or name not in mentioned:
+                continue
+            g = c.getters.get(name)
+            n += 1
+            if g is not None and _transparent_property(g, st):
+                ctx.ok(rule, st, None, f"{cn}.{name} is a transparent getter / setter pair", construct=f"{cn}.{name}", key=f"accessor:{cn}.{name}")
+            else:
+                ctx.undecided(rule, st, None, f"{cn}.{name} is a property with a setter that the pinned tree does not have: a store to `.{name}` runs that code and a read gives "
+                              f"what the getter makes of it, which the rules of this property read as a plain field (not a verdict)", construct=f"{cn}.{name}",
+                              key=f"accessor:{cn}.{name}")
+        for s_ in c.node.body:
+            tg = s_.targets if isinstance(s_, ast.Assign) else [s_.target] if isinstance(s_, ast.AnnAssign) and s_.value is not None else []
+            for t in tg:
+                if isinstance(t, ast.Name) and t.id in mentioned and isinstance(s_.value, ast.Call) and \
+                        ((dotted(s_.value.func) or "").split(".")[-1] in M.classes or (dotted(s_.value.func) or "") in ("property", "functools.cached_property", "cached_property")):
+                    n += 1
+                    ctx.undecided(rule, None, s_, f"{cn}.{t.id} is bound at class level to `{norm(s_.value)}` (a descriptor object): reads and stores of `.{t.id}` on instances go "
+                                  f"through it, which the rules of this property read as a plain field (not a verdict)", construct=f"{cn}.{t.id}", key=f"descriptor:{cn}.{t.id}")
+    return n
+
+
+PINNED_SETTERS = {"UnitaryAlignment": {"disorder", "n_tuple"}, "Notebook": {"crop", "width"}}
 
 
 def check_special_methods(ctx: Ctx, rule: str = "R-SPECIAL-METHODS"):
@@ -1361,6 +1418,7 @@ def check_special_methods(ctx: Ctx, rule: str = "R-SPECIAL-METHODS"):
     related = set(analysed_classes)
     for cn in analysed_classes:
         related |= {k.name for k in M.mro(M.classes[cn])} | {k.name for k in M.subclasses.get(cn, [])}
+    related |= _classes_built_in(ctx)
     for cn in sorted(related):
         c = M.classes.get(cn)
         if c is None:
